@@ -40,6 +40,7 @@ pub(crate) fn vmeta_of(rank: u8) -> &'static VMetadata<'static> { match rank { 1
 pub(crate) const VNSPAN: usize = 4;
 pub(crate) struct VRoot { pub(crate) next_filter: u8, pub(crate) parent: [u64; VNSPAN + 1], pub(crate) bits: [u64; VNSPAN + 1], pub(crate) exists: [bool; VNSPAN + 1], pub(crate) current: u64 }
 pub(crate) struct VData { id: u64, parent: Option<vspan::Id>, bits: u64 }
+impl VData { pub(crate) fn __chain(k: u64) -> VData { VData { id: k, parent: if k <= 1 { None } else { Some(vspan::Id::from_u64(k - 1)) }, bits: 0 } } }
 impl<'a> VSpanData<'a> for VData {
     fn id(&self) -> vspan::Id { vspan::Id::from_u64(self.id) }
     fn metadata(&self) -> &'static VMetadata<'static> { &VMETA_SPAN }
